@@ -339,6 +339,17 @@ func sortInputs(r *rand.Rand, thorough bool) [][]int {
 			out = append(out, s)
 		}
 	}
+	// adversarial inputs that exhaust quicksort's depth budget (heapsort fallback)
+	for _, n := range []int{300, 600} {
+		if in, reached := sortAdversary(n); reached {
+			out = append(out, in)
+			rev := make([]int, n)
+			for i, v := range in {
+				rev[i] = v % 7 // the same shape with many duplicates does not need to reach the fallback; it is one more input
+			}
+			out = append(out, rev)
+		}
+	}
 	return out
 }
 
@@ -425,6 +436,7 @@ func driveC17(c *Ctx) {
 		ns++
 	}
 	meta["B_sort_calls"] = ns
+	_, meta["B_sort_adversary_reaches_heapsort"] = sortAdversary(600)
 	finish()
 }
 
